@@ -167,6 +167,7 @@ pub struct SimCallbacks<'p> {
     pub cb_gc_done: Vec<u64>,
     pub nested: u32,
     pub nested_evals: u64,
+    pub nested_failures_swallowed: u64,
     pub imports_served_from_cache: u64,
     pub imports_failed_injected: u64,
     pub natives_failed_injected: u64,
@@ -192,6 +193,7 @@ impl<'p> SimCallbacks<'p> {
             cb_gc_done: Vec::new(),
             nested: 0,
             nested_evals: 0,
+            nested_failures_swallowed: 0,
             imports_served_from_cache: 0,
             imports_failed_injected: 0,
             natives_failed_injected: 0,
@@ -449,10 +451,44 @@ impl<'p> Callbacks<'p> for SimCallbacks<'p> {
                     Err(_) => Err(NativeError),
                 }
             }
+            "tryOther" => {
+                // a nested evaluation on the same program whose FAILURE the embedder swallows: the outer evaluation
+                // carries on over whatever the aborted inner one left behind (thunks in progress, pending object
+                // asserts, evaluator stacks)
+                if self.nested >= 2 {
+                    return Ok(args[0].clone());
+                }
+                let key = if self.files.contains_key("other.jsonnet") { "other.jsonnet" } else { "<tryfail>" };
+                let thunk = match self.import_cache.get(key) {
+                    Some(t) => t.clone(),
+                    None => {
+                        let loaded = if key == "<tryfail>" { self.load_data(program, key, TRYFAIL_SRC.as_bytes()) } else { self.load(program, key) };
+                        match loaded {
+                            Ok(t) => {
+                                self.import_cache.insert(key.into(), t.clone());
+                                t
+                            }
+                            Err(_) => return Ok(args[0].clone()),
+                        }
+                    }
+                };
+                self.nested += 1;
+                self.nested_evals += 1;
+                let r = program.eval_value(&thunk, self);
+                self.nested -= 1;
+                if r.is_err() {
+                    self.nested_failures_swallowed += 1;
+                }
+                Ok(args[0].clone())
+            }
             _ => Ok(args[0].clone()),
         }
     }
 }
+
+/// Evaluated by the `tryOther` native when the world has no `other.jsonnet`: allocates, leaves thunks in progress and
+/// object asserts pending, then fails during the deep evaluation of its last element.
+pub const TRYFAIL_SRC: &str = "local o = { assert self.n > 0 : \"n\", n: 3, xs: [self.n, self.n + 1], deep: { v: std.map(function(x) x * 2, o.xs) } };\n[o.deep.v, std.foldl(function(a, b) a + b, o.xs, 0), { assert o.n == 3, w: o.xs[5] }]";
 
 /// Renders a value through `Value::kind()` (panics with "thunk not evaluated" if it is not deep).
 pub fn walk_value(v: &Value<'_>, depth: u32) -> String {
@@ -471,7 +507,7 @@ pub fn walk_value(v: &Value<'_>, depth: u32) -> String {
     }
 }
 
-pub const NATIVES: &[&str] = &["id", "fail", "gcNow", "evalOther"];
+pub const NATIVES: &[&str] = &["id", "fail", "gcNow", "evalOther", "tryOther"];
 
 // ---------------------------------------------------------------------------
 // schedule (who owns "collect now?")
